@@ -187,7 +187,7 @@ func (in *Interp) newNondet(name, kind string, w int, signed bool) value {
 		return &sym{k: sStr, t: term}
 	default:
 		in.solver.Send(fmt.Sprintf("(declare-const %s (_ BitVec %d))", term, w))
-		return &sym{k: sBV, w: w, t: term}
+		return &sym{k: sBV, w: w, t: term, atom: true}
 	}
 }
 
@@ -341,6 +341,7 @@ func init() {
 			return fmt.Sprintf("%s%d", in.concStr(a[0], "verifName"), in.concInt(a[1], "verifName"))
 		},
 		"verifSymbolic": func(in *Interp, fr *frame, a []value) value { return true },
+		"verifAbstractLen": verifAbstractLenAPI, // intr_C29.go
 		// verifTime(ns): a model instant (monotonic form) at ns nanoseconds
 		"verifTime": func(in *Interp, fr *frame, a []value) value {
 			return in.timeValue(a[0])
